@@ -1,7 +1,10 @@
 import BeffVerif.Props.C10
+import BeffVerif.Props.C14
 open BeffVerif.C10
 #print axioms nondet_sites_known
 #print axioms sortBy_perm
 #print axioms sortBy_sorted
 #print axioms sorted_perm_eq
 #print axioms emit_order_independent
+#print axioms BeffVerif.C14.history_independent
+#print axioms BeffVerif.C14.rebuild_twice
